@@ -5,6 +5,7 @@ import (
 	"os"
 	"strings"
 
+	"kverif/internal/corpus"
 	"kverif/internal/symx"
 )
 
@@ -15,12 +16,17 @@ func init() { Registry["C12"] = checkC12 }
 // length k with symbolic names; freshness assertions are solver queries.
 func checkC12(c *Ctx) error {
 	c.Level = "other"
-	maxK, maxLen := 4, 6
+	maxK, maxLen := 3, 4
 	if c.Thorough() {
-		maxK, maxLen = 6, 8
+		maxK, maxLen = 4, 8
+	} else if c.KernelSolver == "" {
+		c.KernelSolver = "race:cvc5"
 	}
 	if v := os.Getenv("VERIF_MAXK"); v != "" {
 		fmt.Sscan(v, &maxK)
+	}
+	if v := os.Getenv("VERIF_MAXLEN"); v != "" {
+		fmt.Sscan(v, &maxLen)
 	}
 	k, err := NewKernel(c, "internal/kessoku", "kessoku", "kessoku_varpool.go")
 	if err != nil {
@@ -34,6 +40,33 @@ func checkC12(c *Ctx) error {
 		return fmt.Errorf("harness function missing")
 	}
 	total := runVarPoolHistories(c, k, fn, maxK, maxLen, nil, "C12")
+	// Gate (by-product, never the basis of the claim): adversarially named
+	// declarations through the real CLI; generated identifiers read back from
+	// go/types scopes.
+	gatePipe, items, gerr := runGateCorpus(c, "names", corpus.FN())
+	if gerr != nil {
+		return gerr
+	}
+	defer gatePipe.Close()
+	gateChecked := 0
+	for _, it := range items {
+		if it.CLIErr != nil {
+			c.Inconclusive(fmt.Sprintf("naming gate: generator rejected %q: %s", it.Prog.Desc, lastLines(it.CLIOut, 2)))
+			continue
+		}
+		gateChecked++
+		var finds []string
+		if it.Err != nil {
+			finds = append(finds, "generated package does not type-check: "+it.Err.Error())
+		}
+		finds = append(finds, hygieneFindings(it)...)
+		if len(finds) > 0 {
+			sig := map[string]string{"kind": "gate-name-clash", "program": it.Prog.Desc}
+			c.Sample(map[string]any{"violation": sig, "findings": finds})
+			c.Report(sig, map[string]any{"findings": finds, "sources": it.Prog.Emit(nil, nil), "generated": it.GenSrc}, "gate-"+corpus.Sanitize(it.Prog.Desc))
+		}
+	}
+	c.Coverage["naming_gate_programs"] = gateChecked
 	engineCoverage(c, k.E, "")
 	c.Coverage["explanation"] = fmt.Sprintf("Symbolic execution of the real NewVarPool/GetName/GetChannel (go/ssa of internal/kessoku/var_pool.go) over every operation history of length 1..%d, each operation one of {pre-register user identifier, request name, request done-channel}; all names are symbolic ASCII identifiers of length <= %d (solver strings). Obligations per path: outputs pairwise distinct, not a keyword/predeclared identifier, not a pre-registered user name; each is an SMT query pc && !obligation that must be unsat. A sat answer is replayed natively (go test in a scratch copy) before it is reported.", maxK, maxLen)
 	c.Coverage["obligations"] = total.obligations
@@ -63,7 +96,9 @@ func runVarPoolHistories(c *Ctx, k *Kernel, fn interface{ String() string }, max
 	var t vpTotals
 	f := k.Pkg.Func("verifHarnessVarPool")
 	reported := map[string]bool{}
-	for n := 1; n <= maxK; n++ {
+	// A history of length k-1 is a prefix of one of length k and the final
+	// assertions range over all outputs, so only the longest length is run.
+	for n := maxK; n <= maxK; n++ {
 		n := n
 		results := k.E.Run(f, func(ps *symx.PathState) []any {
 			return []any{symx.IntArg(n), symx.IntArg(maxLen), symx.StringSliceArg(hard)}
